@@ -14,6 +14,29 @@ def exh_cases(n, lo, hi, M, inits):
                    "deliv": tok.DELIVS[(v // 3 + k) % 3]}
 
 
+def init_grid_cases(shard, nshards):
+    """The initial phase against max_length: init_min 2..6 x init_max_silence 1..4 x every max_length up
+    to init_min*(init_max_silence+1)+2, on streams made of single valid frames separated by about the
+    tolerated initial silence and followed by various tails."""
+    k = 0
+    for imin in range(2, 7):
+        for isil in range(1, 5):
+            for mx in range(imin + 1, imin * (isil + 1) + 3):
+                for mn in sorted({1, min(2, mx), mx}):
+                    for sil in sorted({0, min(isil, mx - 1)}):
+                        for mode in (0, 2, 4):
+                            k += 1
+                            if k % nshards != shard:
+                                continue
+                            p = [mn, mx, sil, imin, isil, mode]
+                            for g in sorted({max(isil - 1, 0), isil, isil + 1}):
+                                for r in range(1, imin + 2):
+                                    body = ("1" + "0" * g) * r
+                                    for ti, tail in enumerate(("", "1", "11", "1" * mx, "0" * (isil + 1) + "111", "10" + "1" * mx)):
+                                        yield {"pat": body + tail, "p": p, "kind": tok.KINDS[(r + ti) % len(tok.KINDS)],
+                                               "deliv": tok.DELIVS[(g + ti) % 3]}
+
+
 REUSE_HOWS = ("list", ["gen", 0], ["gen", 1], ["two_gens"])
 
 
@@ -52,7 +75,7 @@ def std_jobs(tier, seed, bounds, shards=16):
             out.append({"name": f"exh-n{n}-{lo}", "kind": "exh", "n": n, "lo": lo,
                         "hi": min(1 << n, lo + chunk), "M": b["M"]})
     out.sort(key=lambda j: -j["n"])
-    out = reuse_jobs(tier) + out
+    out = reuse_jobs(tier) + [{"name": f"init-grid-{i}", "kind": "init_grid", "shard": i, "nshards": 8} for i in range(8)] + out
     for i in range(shards):
         out.append({"name": f"hyp-{i}", "kind": "hyp", "seed": seed * 1000 + i,
                     "n": b["hyp_examples"], "maxlen": b["maxlen"], "maxmax": b["maxmax"]})
@@ -62,6 +85,8 @@ def std_jobs(tier, seed, bounds, shards=16):
 def std_run_job(mod, job, rec, inits, init="any"):
     if job["kind"] == "exh":
         run_cases(mod, exh_cases(job["n"], job["lo"], job["hi"], job["M"], inits), rec)
+    elif job["kind"] == "init_grid":
+        run_cases(mod, init_grid_cases(job["shard"], job["nshards"]), rec)
     elif job["kind"] == "exh_reuse":
         run_cases(mod, reuse_cases(job["shard"], job["nshards"], job["M"], job["Lpre"], job["Lmain"], inits), rec)
     elif job["kind"] == "hyp":
